@@ -81,6 +81,7 @@ func lenOf(v ssa.Value) (ssa.Value, bool) {
 
 func checkC08(p *Program, r *Report) {
 	c08Rules(p, r)
+	c08DrainOnce(p, r)
 	// a segment encoded with compression must be decodable by the same codec: both sides follow the
 	// same framing for every payload length, including the empty payload (shared with C06)
 	ws, _ := analyseSegmentWriter(p)
@@ -352,3 +353,68 @@ func sameSlice(a, b ssa.Value) bool {
 
 var _ = constant.MakeInt64
 var _ types.Type
+
+// c08DrainOnce: a reader that has been read to its end (bufferFromReader, io.ReadAll,
+// Buffer.ReadFrom) is not handed to another reading call afterwards. A second read sees an empty
+// stream for every reader that is not a *bytes.Buffer (whose Bytes() are taken without consuming),
+// so the data is silently lost.
+func c08DrainOnce(p *Program, r *Report) {
+	drains := func(f *ssa.Function) bool {
+		if f == nil {
+			return false
+		}
+		switch f.String() {
+		case "io.ReadAll", "io/ioutil.ReadAll", "(*bytes.Buffer).ReadFrom":
+			return true
+		}
+		return f.Name() == "bufferFromReader"
+	}
+	n := 0
+	for _, fn := range p.ModuleFuncs() {
+		if fn.Pkg == nil || !strings.HasPrefix(shortPkg(fn.Pkg.Pkg), "compression") {
+			continue
+		}
+		for _, b := range fn.Blocks {
+			for _, ins := range b.Instrs {
+				c, ok := ins.(*ssa.Call)
+				if !ok || !drains(c.Call.StaticCallee()) {
+					continue
+				}
+				n++
+				key := fmt.Sprintf("%s drain#%d", fnKey(fn), n)
+				var src ssa.Value
+				for _, a := range c.Call.Args {
+					if types.TypeString(a.Type(), nil) == "io.Reader" {
+						src = a
+					}
+				}
+				if src == nil {
+					r.OKf("drain-once", key, c.Pos(), "no reader argument")
+					continue
+				}
+				bad := ""
+				for _, ref := range *src.Referrers() {
+					other, ok := ref.(*ssa.Call)
+					if !ok || other == c {
+						continue
+					}
+					after := other.Block() == c.Block() && instrIndex(other) > instrIndex(c) || other.Block() != c.Block() && c.Block().Dominates(other.Block())
+					if after {
+						name := "a call"
+						if f := other.Call.StaticCallee(); f != nil {
+							name = f.Name()
+						} else if other.Call.IsInvoke() {
+							name = other.Call.Method.Name()
+						}
+						bad = fmt.Sprintf("%s: the reader already read to its end by %s is handed to %s: for any reader but a *bytes.Buffer the second read finds nothing and the data is lost", p.pos(other.Pos()), c.Call.StaticCallee().Name(), name)
+					}
+				}
+				if bad != "" {
+					r.Fail("drain-once", key, c.Pos(), "%s", bad)
+				} else {
+					r.OKf("drain-once", key, c.Pos(), "the drained reader is not read again")
+				}
+			}
+		}
+	}
+}
